@@ -147,9 +147,7 @@ theorem parse_exact_fixed (neg : Bool) (d1 : Nat) (xs ys : List Nat) (h1 : isNon
       omega
     have := realResult_exact neg (decVal (d1 :: (xs ++ ys))) (xs.length + 1 + ys.length) ys.length true t.length hv0 hv64
       (by omega) (by omega) (by simp only [if_true]; omega)
-      (fun _ => Or.inl ⟨by omega, by
-        have : ys.length / 27 = 0 := by omega
-        rw [this]; omega⟩)
+      (fun _ h => by obtain ⟨_, h⟩ := h; omega)
       (by simp only [if_true]; exact hm)
     simpa using this
   exact parseDouble_real t _ neg (Nat.lt_of_le_of_lt (nearestMag_le_inf _ _) (by decide)) hstr
@@ -198,7 +196,7 @@ theorem parse_exact_of_realResult (t : List Nat) (neg : Bool) (v n X : Nat) (FLA
     (hv0 : 0 < v) (hv : v < 2 ^ 64) (hn19 : n ≤ 19) (hX : X < 2 ^ 31)
     (hlink : ∃ c, 0 < c ∧ num = (if FLAG then v else v * 10 ^ X) * c ∧ den = (if FLAG then 10 ^ X else 1) * c)
     (hrange : if FLAG then X ≤ n + 324 else X + n ≤ 309)
-    (hcond : FLAG = true → (X < 216 ∧ 2 ^ (X / 27) ≤ 2 * v) ∨ 2 ^ (X / 27 + 1) ≤ v)
+    (hcond : FLAG = true → ¬ negExc v X)
     (hm : Margin32 num den) :
     parseDouble t = FmtSpec.readBits64 t := by
   obtain ⟨c, hc, hnum, hden⟩ := hlink
@@ -326,8 +324,8 @@ theorem strToNum_sci_eq (neg : Bool) (d1 : Nat) (ys : List Nat) (eneg : Bool) (k
     rw [hdec]
     congr 1
 
-/-- **`%.17g` scientific notation** (`d[.ddd]e±kk`): in range, under the margin (and the mantissa
-condition for a negative net exponent), the parser returns the correctly rounded double. -/
+/-- **`%.17g` scientific notation** (`d[.ddd]e±kk`): in range, under the margin, every mantissa (the
+three numerals `negExc` excepted), the parser returns the correctly rounded double. -/
 theorem parse_exact_sci (neg : Bool) (d1 : Nat) (ys : List Nat) (eneg : Bool) (ks : List Nat)
     (h1 : isNonZeroDigit d1 = true) (hys : AllDigits ys) (hy48 : ys ≠ [48]) (hlen : ys.length ≤ 16)
     (hks : AllDigits ks) (hk0 : ks ≠ []) (hk8 : ks.length ≤ 8)
@@ -337,9 +335,7 @@ theorem parse_exact_sci (neg : Bool) (d1 : Nat) (ys : List Nat) (eneg : Bool) (k
                 (netExp false (decVal ks) eneg ys.length).1 ≤ 1 + ys.length + 324
               else (netExp false (decVal ks) eneg ys.length).1 + (1 + ys.length) ≤ 309)
     (hcond : (netExp false (decVal ks) eneg ys.length).2 = true →
-      ((netExp false (decVal ks) eneg ys.length).1 < 216 ∧
-        2 ^ ((netExp false (decVal ks) eneg ys.length).1 / 27) ≤ 2 * decVal (d1 :: ys)) ∨
-      2 ^ ((netExp false (decVal ks) eneg ys.length).1 / 27 + 1) ≤ decVal (d1 :: ys)) :
+      ¬ negExc (decVal (d1 :: ys)) (netExp false (decVal ks) eneg ys.length).1) :
     parseDouble (FmtSpec.signed neg ([d1] ++ (if ys = [] then [] else 46 :: ys) ++ 101 :: (if eneg then 45 else 43) :: ks)) =
       FmtSpec.readBits64 (FmtSpec.signed neg ([d1] ++ (if ys = [] then [] else 46 :: ys) ++ 101 :: (if eneg then 45 else 43) :: ks)) := by
   have hdig := isNonZeroDigit_isDigit h1
@@ -377,6 +373,29 @@ theorem parse_exact_sci (neg : Bool) (d1 : Nat) (ys : List Nat) (eneg : Bool) (k
   have hstr := strToNum_sci_eq neg d1 ys eneg ks h1 hys hy48 hlen hks hk0 hk8 t ht.symm
   exact parse_exact_of_realResult t neg (decVal (d1 :: ys)) (1 + ys.length) _ _ _ _ hstr href hv0 hv64 (by omega) hX
     (frac_link (decVal (d1 :: ys)) ys.length (decVal ks) eneg) hrange hcond hm
+
+/-- the reference reader on a scientific text -/
+theorem readBits64_sci (neg : Bool) (d1 : Nat) (ys : List Nat) (eneg : Bool) (ks : List Nat)
+    (h1 : isNonZeroDigit d1 = true) (hys : AllDigits ys) (hks : AllDigits ks) (hk0 : ks ≠ []) :
+    FmtSpec.readBits64 (FmtSpec.signed neg ([d1] ++ (if ys = [] then [] else 46 :: ys) ++ 101 :: (if eneg then 45 else 43) :: ks)) =
+      some ((if neg then 2 ^ 63 else 0) +
+        nearestMag (if eneg then decVal (d1 :: ys) else decVal (d1 :: ys) * 10 ^ decVal ks)
+          (if eneg then 10 ^ ys.length * 10 ^ decVal ks else 10 ^ ys.length)) := by
+  have hdig := isNonZeroDigit_isDigit h1
+  have hd1r : 48 ≤ d1 ∧ d1 ≤ 57 := by simp [isDigit] at hdig; omega
+  have hrc := readCore_exp neg [d1] ys ks eneg (by simp) (allDigits_fmt (fun y hy => by simp at hy; subst hy; exact hdig))
+    (allDigits_fmt hys) hk0 (allDigits_fmt hks)
+  have hrc' : readCore neg ([d1] ++ (if ys = [] then [] else 46 :: ys) ++ 101 :: (if eneg then 45 else 43) :: ks) =
+      some (neg, (if eneg then decVal (d1 :: ys) else decVal (d1 :: ys) * 10 ^ decVal ks),
+        (if eneg then 10 ^ ys.length * 10 ^ decVal ks else 10 ^ ys.length)) := by
+    rw [hrc]
+    cases eneg <;> simp [digitsValue_eq]
+  have hden : 0 < (if eneg then 10 ^ ys.length * 10 ^ decVal ks else 10 ^ ys.length) := by
+    split
+    · exact Nat.mul_pos (Nat.pow_pos (by decide)) (Nat.pow_pos (by decide))
+    · exact Nat.pow_pos (by decide)
+  exact readBits64_signed neg _ d1 ((if ys = [] then [] else 46 :: ys) ++ 101 :: (if eneg then 45 else 43) :: ks)
+    (by simp) hd1r _ _ hden hrc'
 
 /-- **`%.17g` integers** (`[-]ddd`, at most 17 digits): the parser returns the exact integer and the
 callers' conversion to `double` is the correctly rounded value — no margin needed. -/
@@ -515,9 +534,7 @@ theorem parse_exact_small (neg : Bool) (zs : List Nat) (d1 : Nat) (ys : List Nat
       Nat.lt_of_lt_of_le hvhi (Nat.le_trans (Nat.pow_le_pow_right (by decide) (by simp; omega)) (by decide : (10 : Nat) ^ 19 ≤ 2 ^ 64))
     have := realResult_exact neg (decVal (d1 :: ys)) (1 + ys.length) (zs.length + 1 + ys.length) true t.length hv0 hv64
       (by omega) (by omega) (by simp only [if_true]; omega)
-      (fun _ => Or.inl ⟨by omega, by
-        have : (zs.length + 1 + ys.length) / 27 = 0 := by omega
-        rw [this]; omega⟩)
+      (fun _ h => by obtain ⟨_, h⟩ := h; omega)
       (by simp only [if_true]; exact hm)
     simpa using this
   exact parseDouble_real t _ neg (Nat.lt_of_le_of_lt (nearestMag_le_inf _ _) (by decide)) hstr
@@ -525,9 +542,10 @@ theorem parse_exact_small (neg : Bool) (zs : List Nat) (d1 : Nat) (ys : List Nat
 /-! ### The class: `%.17g` texts
 
 `Text17 t` — the shapes `FmtSpec.generalBody … 17` produces after trailing-zero stripping, with the
-side conditions the parser-side proof needs for the scientific shape (finite range, and for a
-negative net exponent a mantissa that is not tiny: `2^(X/27) ≤ 2·v` when `X < 216`, else
-`2^(X/27+1) ≤ v`). `fixed`/`small`/`int` need no side condition. -/
+side conditions the parser-side proof needs for the scientific shape: finite range, and not one of
+the three numerals `1e-273`, `1e-286`, `1e-292` (`StrToNum.negExc`: mantissa 1, net exponent −273,
+−286, −292), on which the code is one unit off although the value keeps the margin — none of them is
+a `%.17g` output (`Props/C11Closed.lean`). `fixed`/`small`/`int` need no side condition. -/
 inductive Text17 : List Nat → Prop
   /-- `[-]ddd` — an integer of at most 17 digits (`0`, or no leading zero) -/
   | int (neg : Bool) (ds : List Nat) : AllDigits ds → ds ≠ [] → (ds = [48] ∨ ds.head? ≠ some 48) → ds.length ≤ 17 →
@@ -539,16 +557,14 @@ inductive Text17 : List Nat → Prop
   | small (neg : Bool) (zs : List Nat) (d1 : Nat) (ys : List Nat) : (∀ z ∈ zs, z = 48) → zs.length ≤ 8 →
       isNonZeroDigit d1 = true → AllDigits ys → 1 + ys.length ≤ 17 →
       Text17 (FmtSpec.signed neg ([48] ++ 46 :: (zs ++ d1 :: ys)))
-  /-- `[-]d[.d…d]e±k…` — scientific: in range, mantissa not tiny when the net exponent is negative -/
+  /-- `[-]d[.d…d]e±k…` — scientific: in range, not `1e-273`/`1e-286`/`1e-292` -/
   | sci (neg : Bool) (d1 : Nat) (ys : List Nat) (eneg : Bool) (ks : List Nat) : isNonZeroDigit d1 = true → AllDigits ys →
       ys ≠ [48] → 1 + ys.length ≤ 17 → AllDigits ks → ks ≠ [] → ks.length ≤ 8 →
       (if (netExp false (decVal ks) eneg ys.length).2 then
           (netExp false (decVal ks) eneg ys.length).1 ≤ 1 + ys.length + 324
         else (netExp false (decVal ks) eneg ys.length).1 + (1 + ys.length) ≤ 309) →
       ((netExp false (decVal ks) eneg ys.length).2 = true →
-        ((netExp false (decVal ks) eneg ys.length).1 < 216 ∧
-          2 ^ ((netExp false (decVal ks) eneg ys.length).1 / 27) ≤ 2 * decVal (d1 :: ys)) ∨
-        2 ^ ((netExp false (decVal ks) eneg ys.length).1 / 27 + 1) ≤ decVal (d1 :: ys)) →
+        ¬ negExc (decVal (d1 :: ys)) (netExp false (decVal ks) eneg ys.length).1) →
       Text17 (FmtSpec.signed neg ([d1] ++ (if ys = [] then [] else 46 :: ys) ++ 101 :: (if eneg then 45 else 43) :: ks))
 
 /-- the margin hypothesis on a text, through the reference reader -/
